@@ -270,21 +270,14 @@ func ruleIndexBound(c *eng.Ctx) {
 	if fn := c.P.Func("core.(*ObjectStream).GetObjectByIndex"); fn == nil {
 		c.Undec(R, "core.(*ObjectStream).GetObjectByIndex", token.NoPos, "anchor not found")
 	} else {
-		eng.Instrs(fn, false, func(in ssa.Instruction) {
-			sl, ok := in.(*ssa.Slice)
-			if !ok || sl.Low == nil || sl.High == nil {
-				return
-			}
-			if fr, ok := eng.LoadOfField(sl.X); !ok || fr.Field != "decoded" {
-				return
-			}
-			low, high := sl.Low, sl.High
-			nonNeg := eng.GuardedBy(fn, sl.Block(), func(f eng.Fact) bool {
+		// prove(f0, blk, low, high): the missing parts of 0 <= low < len, low <= high <= len at blk of f0
+		prove := func(f0 *ssa.Function, blk *ssa.BasicBlock, low, high ssa.Value) []string {
+			nonNeg := eng.GuardedBy(f0, blk, func(f eng.Fact) bool {
 				op, x, y, ok := f.Cmp()
 				k, isC := eng.ConstInt(y)
 				return ok && x == low && isC && ((op == token.GEQ && k == 0) || (op == token.GTR && k == -1))
 			})
-			lowLen := eng.GuardedBy(fn, sl.Block(), func(f eng.Fact) bool {
+			lowLen := eng.GuardedBy(f0, blk, func(f eng.Fact) bool {
 				op, x, y, ok := f.Cmp()
 				if !ok || x != low {
 					return false
@@ -348,6 +341,42 @@ func ruleIndexBound(c *eng.Ctx) {
 			}
 			if !highOK {
 				miss = append(miss, "low <= high <= len")
+			}
+			return miss
+		}
+		eng.Instrs(fn, false, func(in ssa.Instruction) {
+			sl, ok := in.(*ssa.Slice)
+			if !ok || sl.Low == nil || sl.High == nil {
+				return
+			}
+			if fr, ok := eng.LoadOfField(sl.X); !ok || fr.Field != "decoded" {
+				return
+			}
+			var miss []string
+			exLow, isExL := sl.Low.(*ssa.Extract)
+			exHigh, isExH := sl.High.(*ssa.Extract)
+			if isExL && isExH && exLow.Tuple == exHigh.Tuple {
+				// the bounds are computed by a helper (offset, end, err := os.objectBounds(i)): prove them at each of its returns
+				call, _ := exLow.Tuple.(*ssa.Call)
+				var h *ssa.Function
+				if call != nil {
+					h = call.Call.StaticCallee()
+				}
+				if h == nil || h.Blocks == nil || !eng.InModule(h) {
+					miss = []string{"bounds come from a call that cannot be resolved"}
+				} else {
+					for _, r := range eng.Returns(h) {
+						lo, hi := r.Results[exLow.Index], r.Results[exHigh.Index]
+						if kl, okl := eng.ConstInt(lo); okl && kl == 0 {
+							if kh, okh := eng.ConstInt(hi); okh && kh == 0 {
+								continue // the error return: [0:0] is always in range
+							}
+						}
+						miss = append(miss, prove(h, r.Block(), lo, hi)...)
+					}
+				}
+			} else {
+				miss = prove(fn, sl.Block(), sl.Low, sl.High)
 			}
 			c.Check(len(miss) == 0, R, "core.(*ObjectStream).GetObjectByIndex#slice", sl.Pos(), "0 <= low <= high <= len proven", "object data is sliced with offsets from the stream header without proving "+strings.Join(miss, ", ")+": a negative or decreasing offset panics")
 		})
